@@ -174,6 +174,43 @@ def run(ctx, budget=None):
                 violations.append({"sig": "cli-exit-%s" % rc, "what": "CLI exit %r on %s: stderr %r" % (rc, label, se[:600]), "scenario": dict(dump(sc), cli_flags=fl)})
             nontriv.add((rc, "stress", label.split("-")[0]))
 
+    # 0b. the file system around the command: patterns matching entries that cannot be read (dangling symbolic link, link loop,
+    # directory, unreadable file) and output paths of every length (the report prints the path), through the CLI
+    v = gen.yaml_doc({"meta": {"pkg": "gen", "imports": {"fx": gen.FX}}, "services": {"a": {"constructor": "fx.NewA"}}})
+    fs_cases = []
+    for link in ("dangling", "loop", "dir", "ok"):
+        fs_cases.append(("symlink-" + link, {"cfg/a.yaml": v}, ["cfg/*.yaml"], "out/gen.go", link))
+    for n in (20, 43, 44, 45, 46, 60, 61, 120, 250):
+        stem = "out/" + "d" * max(1, n - len("out//gen.go")) + "/gen.go"
+        fs_cases.append(("long-output-%d" % n, {"cfg/a.yaml": v}, ["cfg/a.yaml"], stem, None))
+    fs_cases.append(("long-output-unicode", {"cfg/a.yaml": v}, ["cfg/a.yaml"], "out/" + "\u00e9\u4e16" * 30 + "/gen.go", None))
+    fs_cases.append(("long-input-name", {"cfg/" + "i" * 120 + ".yaml": v}, ["cfg/*.yaml"], "out/gen.go", None))
+    for label, files, pats, outp, link in fs_cases:
+        sc = {"name": "fs:" + label, "files": files, "patterns": pats, "out": outp, "pre": "absent", "flags": {}}
+        for quiet in ([], ["--quiet"]):
+            runsc.setup_dir(root, sc)
+            os.makedirs(os.path.join(root, os.path.dirname(outp)), exist_ok=True)
+            if link == "dangling":
+                os.symlink("nowhere.yaml", os.path.join(root, "cfg/b.yaml"))
+            elif link == "loop":
+                os.symlink("c.yaml", os.path.join(root, "cfg/b.yaml")); os.symlink("b.yaml", os.path.join(root, "cfg/c.yaml"))
+            elif link == "dir":
+                os.makedirs(os.path.join(root, "cfg/sub")); os.symlink("sub", os.path.join(root, "cfg/b.yaml"))
+            elif link == "ok":
+                os.symlink("a.yaml", os.path.join(root, "cfg/b.yaml"))
+            args = ["build"] + [x for p_ in pats for x in ("-i", p_)] + ["-o", outp] + quiet
+            rc, so, se = core.cli(args, cwd=root, timeout=40)
+            dist["cli_runs"] += 1
+            dist["fs_cases"] = dist.get("fs_cases", 0) + 1
+            wrote = os.path.isfile(os.path.join(root, outp))
+            if rc == -9:
+                violations.append({"sig": "hang", "what": "the command did not finish on %s" % label, "scenario": dict(dump(sc), cli_flags=quiet)})
+            elif rc not in (0, 1):
+                violations.append({"sig": "cli-exit-%s" % rc, "what": "CLI exit %r on %s: stderr %r" % (rc, label, se[:600]), "scenario": dict(dump(sc), cli_flags=quiet, link=link)})
+            elif (rc == 0) != wrote:
+                violations.append({"sig": "exit0-without-output" if rc == 0 else "failure-touched-output", "what": "%s: exit %d, output written: %s" % (label, rc, wrote), "scenario": dict(dump(sc), cli_flags=quiet, link=link)})
+            nontriv.add((rc, "fs", label.split("-")[0]))
+
     # 1. schema-aware type confusions in every position
     t_end = time.time() + budget * 0.45
     combos = [(p, v) for p in POSITIONS for v in CONFUSIONS]
